@@ -340,3 +340,10 @@ func (d c09Multiplex) Prepare(pool types.ConnectionPool, ctx context.Context) (b
 func TestVerifC09Multiplex(t *testing.T) {
 	c09.Main(t, c09Multiplex{}, 7, 11)
 }
+
+// TestVerifC09PingPongSchedules is the concurrent (E1) part for the ping-pong pool: see
+// mosn.io/mosn/pkg/verifrt/c09/sched.go. Built with the "proxy" rewrite set (pkg/stream,
+// pkg/stream/xprotocol, pkg/upstream/cluster instrumented).
+func TestVerifC09PingPongSchedules(t *testing.T) {
+	c09.MainSchedules(t, c09PingPong{}, c09.DefaultScenarios(), 2, 3)
+}
